@@ -41,7 +41,9 @@ def block_class(hdrs):
 
 CONFIGS = {"default": {}, "nocheck": {"validate_outbound_headers": False, "normalize_outbound_headers": False}}
 BADREQ = [(b":method", b"GET"), (b":path", b"/")]           # refused by outbound validation: no :scheme / :authority
-PRIO_KW = {"dep0": {"priority_depends_on": 0}, "exF": {"priority_exclusive": False}, "w16": {"priority_weight": 16}}
+PRIO_KW = {"dep0": {"priority_depends_on": 0}, "exF": {"priority_exclusive": False}, "w16": {"priority_weight": 16},
+           # invalid priority fields: the call is refused whatever the role, and opens nothing
+           "self": {"priority_depends_on": "SELF"}, "w300": {"priority_weight": 300}}
 
 
 class Spec(L.Spec):
@@ -69,7 +71,7 @@ class Spec(L.Spec):
         for k in sorted(PRIO_KW):
             A.append("l:hdrp:%d:%s:%s" % (f, "request" if client else "response", k))
         # frames of the peer that report or change nothing as far as what we may SEND is concerned
-        A += ["rx:altsvc:%d" % f, "rx:prio:%d" % f, "rx:wu:%d" % f]
+        A += ["rx:altsvc:%d" % f, "rx:prio:%d" % f, "rx:wu:%d" % f, "rx:wu:%d" % p]
         if client:
             A += ["rx:hdr:%d:response" % f, "rx:hdr:%d:response:es" % f, "rx:push:%d:%d" % (f, p), "rx:hdr:%d:response" % p,
                   "rx:data:%d:es" % f]
@@ -123,8 +125,9 @@ class Spec(L.Spec):
                 o = h.api("push_stream", sid, int(parts[3]), H.ni(BADREQ))
             else:
                 info["prio_kw"] = parts[4]
-                info["must_refuse"] = not self.client
-                o = h.api("send_headers", sid, H.ni(L.BLOCKS[parts[3]]), **PRIO_KW[parts[4]])
+                info["must_refuse"] = (not self.client) or parts[4] in ("self", "w300")
+                kw = {k: (sid if v == "SELF" else v) for k, v in PRIO_KW[parts[4]].items()}
+                o = h.api("send_headers", sid, H.ni(L.BLOCKS[parts[3]]), **kw)
             return o, info
         if parts[0] == "l" and parts[1] in ("prio", "altsvc"):
             h = st.h
